@@ -198,6 +198,8 @@ def directed(pid, tier="quick"):
         S += [threshold_raise_while_paused()]
     if pid in ("C20", "C05", "C01"):
         S += [shared_spend_discard(0), shared_spend_discard(1)]
+    if pid == "C03":
+        S += [depth_bound_tips("regtest", 2), depth_bound_tips("testnet", 144, 90, 14)]
     if pid == "C03" and tier == "thorough":
         # several hundred blocks each: the real adaptive depth bound and the three-way tie
         S += [depth_bound_chain("testnet", 144, 0), depth_bound_chain("regtest", 6, 30), tie_depth_escape("testnet")]
@@ -537,6 +539,22 @@ def depth_bound_chain(net="testnet", thr=144, competing=0):
     return sc
 
 
+def depth_bound_tips(net="regtest", thr=2, chain_len=110, tips=10):
+    """A chain far below the adaptive depth bound that ends in many sibling tips: the bound depends on the
+    NUMBER OF BLOCKS in the tree (each once), not on the tips' depths; the anchor must stay."""
+    w = World(random.Random(33), net=net, naddr=1, prefix_pair=False)
+    w.blocks[1]["diff"] = 1000000
+    main = _plain_chain(w, 1, chain_len, 1)
+    sibs = [w.mine(main[-2], ntx=0, coinbase_out=cb(1, 1), diff=1, time=w.blocks[main[-2]]["time"] + 600 + i) for i in range(1, tips + 1)]
+    cmds = [{"c": "tick", "dt": 100000}, {"c": "bulk_push", "bs": main[:-1]}, {"c": "ingest"}, q("info")]
+    for b in [main[-1]] + sibs:
+        cmds += [{"c": "push", "b": b}, {"c": "ingest"}]
+    cmds += [q("info"), q("headers", s=0, e=2)]
+    sc = w.scenario(f"depth-bound-tips-{net}-{thr}", {"thr": thr, "seed": 33, "book": False}, cmds)
+    sc["blocks"].insert(0, {"id": 1, "parent": 0, "diff": 1000000, "time": 0, "txs": [1]})
+    return sc
+
+
 def tie_depth_escape(net="testnet", la=302, lc=301):
     """Three children of the anchor tied on accumulated difficulty: c1 (302 blocks, received first),
     c2 (one heavy block), c3 (301 blocks, received last).  The depth escape picks c3, the served chain
@@ -667,12 +685,16 @@ def enum_tree_scenario(spec, idx, net, thr, anchor_diff=1):
 
 
 def enum_trees(tier, seed):
-    """quick: every tree of <= 3 blocks with difficulties {1,2,3} (threshold 100 = nothing stabilises) plus
-    a seeded sample of 4-block trees and of small thresholds; thorough: every tree of <= 4 blocks, sample of 5."""
+    """quick: every tree of <= 3 blocks with difficulties {1,2,3} and every tree of <= 4 blocks with difficulties
+    {1,3} (threshold 100 = nothing stabilises) plus a seeded sample of 4-block trees with small thresholds;
+    thorough: <= 4 blocks {1,2,3}, <= 5 blocks {1,3}, sample of 5-block trees."""
     rng = random.Random(seed)
     nets = ["mainnet", "testnet", "regtest"]
     out = []
     base = enum_tree_specs(3 if tier == "quick" else 4, (1, 2, 3))
+    # one block more with two difficulties far apart: a heavy short branch beats a light long one
+    # (accumulated difficulty and length disagree, also below a block of the served chain)
+    base += [x for x in enum_tree_specs(4 if tier == "quick" else 5, (1, 3)) if x not in set(base)]
     for i, spec in enumerate(base):
         out.append(enum_tree_scenario(spec, i, nets[i % 3], 100))
     extra = enum_tree_specs(4 if tier == "quick" else 5, (1, 2))
